@@ -502,7 +502,7 @@ func init() {
 		RealStub: map[string]string{"verify.TdxQuote/RawTdxQuote": "real", "verify.RootOfTrustToOptions": "real", "crypto/x509 path validation": "real (trusted base)", "Intel CA hierarchies A/B/C": "stub (world)", "bundle files": "real files in a per-run temp dir (simulated disk states)"},
 		Runs: func(tier string) int {
 			if tier == "thorough" {
-				return 1500
+				return 6000
 			}
 			return 96
 		},
